@@ -60,7 +60,17 @@ def touched(fs_, key):
 @harness(PROPERTY, "prepare_files_NP24", functions=["neuropixel:NP2Converter._prepare_files_NP24"],
          clause="a repeated run without overwrite changes nothing on disk; output paths never alias the input; per-shank channel lists are where(shank==s)+sync")
 def h_prepare(H):
-    for overwrite in (False, True):
+    _prepare24(H, (False,))
+
+
+@harness(PROPERTY, "prepare_files_NP24_forced", functions=["neuropixel:NP2Converter._prepare_files_NP24"],
+         clause="a forced (or first) run starts every per-shank output file empty; output paths never alias the input; per-shank channel lists are where(shank==s)+sync")
+def h_prepare_forced(H):
+    _prepare24(H, (True,))
+
+
+def _prepare24(H, flags):
+    for overwrite in flags:
         S = H.session(f"prepare.ow{overwrite}")
 
         def body(it, overwrite=overwrite):
@@ -471,22 +481,34 @@ def h_np21(H):
             it.ctx.oblige(f"np21.no_unexpected_exception.{tag}", z3.BoolVal(failed is None or isinstance(failed, RuntimeError)), "post")
         S.explore(body)
 
-    S2 = H.session("prepare21")
 
-    def body2(it):
-        fs_, conv, ap, napch = mk_conv(it, version="NP2.1")
-        lf = ap.parent.joinpath(ap.name.replace("ap", "lf")).with_suffix(".bin")
-        e1, e2 = z3.Bools("lf_bin_exists lf_cbin_exists")
-        fs_.exists[lf.key] = SV(e1)
-        fs_.exists[lf.with_suffix(".cbin").key] = SV(e2)
-        run_function(it, neuropixel.NP2Converter._prepare_files_NP21, [conv], {"overwrite": False, "assert_shanks": False})
-        created = [op for op in fs_.log if op[0] in ("open_w", "mkdir")]
-        ae = conv.already_exists
-        ae_t = term(ae) if not isinstance(ae, bool) else z3.BoolVal(ae)
-        it.ctx.oblige("np21.rerun.flag", ae_t == z3.Or(e1, e2), "post")
-        it.ctx.oblige("np21.rerun.noop", z3.Implies(ae_t, z3.BoolVal(not created)), "post", "a repeated run without overwrite changes nothing on disk")
-        it.ctx.oblige("np21.outputs_never_alias_input", z3.BoolVal(all(op[1] != ap.key for op in created)), "post")
-    S2.explore(body2)
+
+@harness(PROPERTY, "prepare_files_NP21", functions=["neuropixel:NP2Converter._prepare_files_NP21"],
+         clause="single-shank probes: a repeated run without overwrite changes nothing on disk; a forced (or first) run starts the LF output empty; the output never aliases the input")
+def h_prepare21(H):
+    for overwrite in (False, True):
+        S2 = H.session(f"prepare21.ow{overwrite}")
+
+        def body2(it, overwrite=overwrite):
+            fs_, conv, ap, napch = mk_conv(it, version="NP2.1")
+            lf = ap.parent.joinpath(ap.name.replace("ap", "lf")).with_suffix(".bin")
+            e1, e2 = z3.Bools("lf_bin_exists lf_cbin_exists")
+            fs_.exists[lf.key] = SV(e1)
+            fs_.exists[lf.with_suffix(".cbin").key] = SV(e2)
+            info = run_function(it, neuropixel.NP2Converter._prepare_files_NP21, [conv], {"overwrite": overwrite, "assert_shanks": False})
+            created = [op for op in fs_.log if op[0] in ("open_w", "open_a", "mkdir")]
+            ae = conv.already_exists
+            ae_t = term(ae) if not isinstance(ae, bool) else z3.BoolVal(ae)
+            tag = f"ow{overwrite}"
+            if not overwrite:
+                it.ctx.oblige("np21.rerun.flag", ae_t == z3.Or(e1, e2), "post")
+                it.ctx.oblige("np21.rerun.noop", z3.Implies(ae_t, z3.BoolVal(not created)), "post", "a repeated run without overwrite changes nothing on disk")
+            truncated = {op[1] for op in fs_.log if op[0] == "open_w"}
+            started = z3.BoolVal(isinstance(info, dict) and len(info) >= 1 and all("lf_file" in v and v["lf_file"].key in truncated for v in info.values()))
+            it.ctx.oblige(f"np21.output_starts_empty.{tag}", z3.Implies(z3.Not(ae_t), started), "post",
+                          "whenever the extraction runs (first or forced), the LF file is created / truncated before samples are appended: an lf.bin left by an earlier run never ends up in front of the new stream")
+            it.ctx.oblige(f"np21.outputs_never_alias_input.{tag}", z3.BoolVal(all(op[1] != ap.key for op in created)), "post")
+        S2.explore(body2)
 
 
 @harness(PROPERTY, "init_params_resets", functions=["neuropixel:NP2Converter.init_params"], clause="check_completed cannot survive from an earlier run: init_params resets it")
